@@ -1,4 +1,6 @@
 import Orca.Gen.RefTables
+import Orca.Gen.ApiOutline
+import Orca.Model.ApiOutlineSpec
 import Orca.Lemmas.Ops
 import Orca.Lemmas.Preserve
 import Orca.Lemmas.Redirect
@@ -183,3 +185,13 @@ theorem c06_function_map_uses_reviewed :
         "resolve_special_instrumentation:func+global+memory", "update_ids_and_encode:func+global+memory"] := by decide
 
 end Orca.Edit
+
+/-- **The tie to the source (regenerated on every run).** The control-and-call skeletons of the functions this property rests on:
+    the re-indexing pass (`reorganise_generic`, `order_imports_generic`, `get_mapping_generic`, `recalculate_ids`) is what M1 was transcribed from. A step moved, an early exit, guard, call or assignment added or removed breaks this obligation; renaming, comments and
+    formatting do not. -/
+theorem c06_reindexing_code_reviewed :
+    Orca.Gen.ApiOutline.reorganise_generic = Orca.ApiOutlineSpec.reorganise_generic
+    ∧ Orca.Gen.ApiOutline.order_imports_generic = Orca.ApiOutlineSpec.order_imports_generic
+    ∧ Orca.Gen.ApiOutline.get_mapping_generic = Orca.ApiOutlineSpec.get_mapping_generic
+    ∧ Orca.Gen.ApiOutline.recalculate_ids = Orca.ApiOutlineSpec.recalculate_ids :=
+  ⟨rfl, rfl, rfl, rfl⟩
